@@ -26,7 +26,7 @@ func (world) Rule(p string) string {
 	case "C04":
 		return base + "C04 oracle: every acknowledged StoreTrie state reads back identically (root, entries, child tries, single-key reads of present and absent keys) from the cache, after eviction (direct DB path) and after restart. Non-trivial as for C01."
 	case "C38":
-		return base + "C38 oracle: pages of the real StateModule.GetKeysPaged (page sizes 1..n+1, state evicted between pages) concatenate to the sorted keys with the prefix, each once; GetPairs equals those keys with their values. Non-trivial = at least one multi-page listing."
+		return base + "C38 oracle: pages of the real StateModule.GetKeysPaged (page sizes 1..n+1, state evicted between pages) concatenate to the sorted keys with the prefix, each once; GetPairs equals those keys with their values. Non-trivial = at least one multi-page listing. One RPC StateModule lives for the whole run (until a restart); a third of the enumerations ask for the best block (no block in the request), which the simulator moves to newly stored states, and re-use the prefix of the previous such enumeration half of the time."
 	}
 	return base
 }
